@@ -75,14 +75,15 @@ type world struct {
 	fam family
 	h   *generatecmd.FSEventHandler
 	// model
-	c         int       // compiled variant
-	fileVar   int       // variant whose text the source file holds (-1: unparseable garbage)
-	processed int       // variant of the text file the handler last wrote
-	tWritten  time.Time // fake time of that write
-	held      []int     // variants the text file has held since c was built
-	lastEdit  time.Time
-	pending   bool // the file was edited after the handler last looked
-	trace     []string
+	c          int       // compiled variant
+	fileVar    int       // variant whose text the source file holds (-1: unparseable garbage)
+	processed  int       // variant of the text file the handler last wrote
+	tWritten   time.Time // fake time of that write
+	graceUntil time.Time // text files came back just before: render errors are not judged until then
+	held       []int     // variants the text file has held since c was built
+	lastEdit   time.Time
+	pending    bool // the file was edited after the handler last looked
+	trace      []string
 	// the simulated source file: it lives at the compiled variant's compile-time path and
 	// exists only in this run's model (simos overlay), so parallel worker processes do not collide
 	filePath    string
@@ -95,12 +96,12 @@ type world struct {
 	osCalls  int
 	midSaved bool
 	readVar  int // the variant the handler actually read during the current event
-	useLoop bool
-	raw     *fsnotify.Watcher
-	qmu     sync.Mutex
-	queue   []time.Time // arrival times of coalesced events not yet handled
-	cancel  context.CancelFunc
-	roots   []string
+	useLoop  bool
+	raw      *fsnotify.Watcher
+	qmu      sync.Mutex
+	queue    []time.Time // arrival times of coalesced events not yet handled
+	cancel   context.CancelFunc
+	roots    []string
 }
 
 var watchPattern = regexp.MustCompile(`(.+\.go$)|(.+\.templ$)`)
@@ -310,6 +311,11 @@ func (w *world) check(when string) {
 	since := time.Since(w.tWritten)
 	for ai, a := range argsets {
 		got, err := render(w.fam.Variants[w.c].Comp, a, true)
+		if err != nil && time.Now().Before(w.graceUntil) {
+			// the text files have only just come back: an error now is not judged
+			w.k.Count("probe_render_error_right_after_files_came_back", 1)
+			return
+		}
 		if err != nil {
 			rc.Fail("C16/dev-render-error", "%s %s: dev-mode render of compiled v%d with text of v%d failed: %v\n trace: %s", w.fam.Name, when, w.c, w.processed, err, strings.Join(w.trace, "\n  "))
 			return
@@ -399,9 +405,9 @@ func (w *world) run() {
 	w.k.Quiesce()
 	w.check("after initial build")
 	maxActions := t.Range(3, rc.Param("max_actions", 40), "max-actions")
-	wEdit, wWatch, wAdv, wRender, wRestartApp, wRestartW, wGarbage, wBurst := t.Range(1, 6, "w-edit"), t.Range(1, 6, "w-watch"), t.Range(1, 4, "w-adv"), t.Range(1, 6, "w-render"), t.Range(0, 2, "w-rapp"), t.Range(0, 2, "w-rw"), t.Range(0, 1, "w-garbage"), t.Range(0, 1, "w-burst")
+	wEdit, wWatch, wAdv, wRender, wRestartApp, wRestartW, wGarbage, wBurst, wGone := t.Range(1, 6, "w-edit"), t.Range(1, 6, "w-watch"), t.Range(1, 4, "w-adv"), t.Range(1, 6, "w-render"), t.Range(0, 2, "w-rapp"), t.Range(0, 2, "w-rw"), t.Range(0, 1, "w-garbage"), t.Range(0, 1, "w-burst"), t.Range(0, 1, "w-gone")
 	for a := 0; a < maxActions && !rc.Failed(); a++ {
-		ws := []int{wEdit, 0, wAdv, wRender, wRestartApp, wRestartW, wGarbage, 0}
+		ws := []int{wEdit, 0, wAdv, wRender, wRestartApp, wRestartW, wGarbage, 0, wGone}
 		if !w.pending {
 			ws[7] = wBurst
 		}
@@ -470,6 +476,47 @@ func (w *world) run() {
 			}
 			w.k.Count("probe_render_bursts", 1)
 			w.check("after a burst of renders")
+		case 8:
+			// disk fault: the text files are unreachable for a while (a volume that drops out, a
+			// deploy that moves the directory aside and back). Renders in between may fail; once
+			// the files are back - same content, same modification times - the page is right again.
+			root := os.Getenv("TEMPL_DEV_MODE_ROOT")
+			aside := root + ".aside"
+			if err := os.Rename(root, aside); err != nil {
+				rc.Fail("harness", "%v", err)
+				break
+			}
+			cold := t.Bool("gone-with-cold-cache")
+			if cold {
+				// a program that starts while the files are away (fresh root path = empty cache;
+				// the files come back under the new path)
+				nr, err := os.MkdirTemp(os.Getenv("VSIM_TMP"), "devroot-")
+				if err != nil {
+					rc.Fail("harness", "%v", err)
+					break
+				}
+				os.Remove(nr)
+				os.Setenv("TEMPL_DEV_MODE_ROOT", nr)
+				w.roots = append(w.roots, nr)
+				root = nr
+			}
+			w.note("text files unreachable (cold cache: %v)", cold)
+			n := t.Range(1, 3, "renders-while-gone")
+			for i := 0; i < n; i++ {
+				time.Sleep([]time.Duration{time.Millisecond, 150 * time.Millisecond, settle}[t.Choose(3, "gone-gap")])
+				w.k.Quiesce()
+				if _, err := render(w.fam.Variants[w.c].Comp, argsets[0], true); err != nil {
+					w.k.Count("fault_render_failed_while_text_file_unreachable", 1)
+				}
+			}
+			if err := os.Rename(aside, root); err != nil {
+				rc.Fail("harness", "%v", err)
+				break
+			}
+			w.note("text files back")
+			w.k.Count("fault_text_files_unreachable", 1)
+			w.tWritten = time.Now() // what is rendered within the settle time is not judged against the final text
+			w.graceUntil = w.tWritten.Add(settle)
 		case 6:
 			w.note("edit: file now holds unparseable text")
 			w.writeSource(-1, "package v\n\ntempl Page(x string, y string, on bool) {\n\t<div")
